@@ -935,6 +935,8 @@ func runLockedfile(tier string, seed int64, model string, replay string) *corr.R
 		// a finding of the real-kernel supplement: run the supplement again
 		if strings.HasPrefix(replay, "real-kernel dup-release") {
 			dupRelease(res, scratch)
+		} else if strings.HasPrefix(replay, "real-kernel non-regular-trunc") {
+			nonRegularTrunc(res, scratch)
 		} else {
 			realKernel(res, tier, seed, scratch)
 		}
